@@ -198,7 +198,13 @@ impl Scenario for ReadScenario {
                             seq: ConfSel::Expected,
                             from: Who::Master,
                         }),
-                        _ => script.push(Op::LinkStatusRequest),
+                        _ => {
+                            if rng.bool() {
+                                script.push(Op::LinkStatusRequest)
+                            } else {
+                                script.push(Op::SetDecodeLevel(rng.chance(1, 4)))
+                            }
+                        }
                     }
                     script.push(Op::SleepRel {
                         base: TimeBase::ConfirmTimeout,
@@ -255,6 +261,7 @@ impl Scenario for ReadScenario {
                 }
             }
         }
+        crate::verif::props::gen_out::sprinkle_splits(rng, &mut script);
         SoutCase {
             cfg,
             ctrl: CtrlAnswers::AllSuccess,
